@@ -208,13 +208,13 @@ void _spearman_corr(int m, int tmax, signed char *final_mask,
     for (int i=0; i<m; i++) {
         for (int j=i; j<m; j++) {
             for (int t=0; t<tmax; t++) {
-                if ((final_mask[i*m+t] | final_mask[j*m+t]) == 0)
+                if ((final_mask[i*tmax+t] | final_mask[j*tmax+t]) == 0)
                     zerocount = zerocount+1;
             }
 
             for (int t=0; t<tmax; t++) {
-                rankedi[t] = time_series_ranked[i*m+t] - (float) zerocount;
-                rankedj[t] = time_series_ranked[j*m+t] - (float) zerocount;
+                rankedi[t] = time_series_ranked[i*tmax+t] - (float) zerocount;
+                rankedj[t] = time_series_ranked[j*tmax+t] - (float) zerocount;
             }
 
             for (int t=0; t<tmax; t++) {
@@ -228,7 +228,7 @@ void _spearman_corr(int m, int tmax, signed char *final_mask,
             meanj = meanj/(tmax-zerocount);
 
             for (int t=0; t<tmax; t++) {
-                if ((final_mask[i*m+t] | final_mask[j*m+t]) != 0) {
+                if ((final_mask[i*tmax+t] | final_mask[j*tmax+t]) != 0) {
                     normalizedi[t] = rankedi[t] - meani;
                     normalizedj[t] = rankedj[t] - meanj;
                     cov = cov + normalizedi[t]*normalizedj[t];
